@@ -88,25 +88,37 @@ func parseCompatibleRelease(version string) ([]*constraint, error) {
 		return nil, err
 	}
 
-	// ~=2.2 is equivalent to >=2.2, <3.0
-	if len(v.release) == 1 {
-		upperVersion := fmt.Sprintf("%d.0", v.release[0]+1)
-		return []*constraint{
-			{operator: ">=", version: version},
-			{operator: "<", version: upperVersion},
-		}, nil
+	// ~=X.Y is >=X.Y, ==X.* and ~=X.Y.Z is >=X.Y.Z, ==X.Y.*: the last release
+	// segment is dropped and the one before it may not change. A single
+	// segment (~=1) is not a valid compatible release clause.
+	if len(v.release) < 2 {
+		return nil, fmt.Errorf("compatible release clause requires at least two release segments: ~=%s", version)
 	}
 
-	// ~=1.4.2 is equivalent to >=1.4.2, <1.5.0
-	if len(v.release) >= 2 {
-		upperVersion := fmt.Sprintf("%d.%d.0", v.release[0], v.release[1]+1)
-		return []*constraint{
-			{operator: ">=", version: version},
-			{operator: "<", version: upperVersion},
-		}, nil
-	}
+	return []*constraint{
+		{operator: ">=", version: version},
+		{operator: "<", version: nextPrefixVersion(v.epoch, v.release[:len(v.release)-1])},
+	}, nil
+}
 
-	return []*constraint{{operator: ">=", version: version}}, nil
+// nextPrefixVersion returns the first version after all versions that start
+// with the given release segments: 1.4 -> 1.5, 2 -> 3
+func nextPrefixVersion(epoch int, prefix []int) string {
+	parts := make([]string, len(prefix))
+	for i, segment := range prefix {
+		if i == len(prefix)-1 {
+			segment++
+		}
+		parts[i] = fmt.Sprintf("%d", segment)
+	}
+	next := strings.Join(parts, ".")
+	if len(prefix) == 1 {
+		next += ".0"
+	}
+	if epoch != 0 {
+		next = fmt.Sprintf("%d!%s", epoch, next)
+	}
+	return next
 }
 
 // parseWildcardConstraint handles wildcard constraints like ==1.2.* or !=1.2.*
@@ -115,43 +127,28 @@ func parseWildcardConstraint(operator, version string) ([]*constraint, error) {
 	baseVersion := strings.TrimSuffix(version, ".*")
 
 	e := &Ecosystem{}
-	v, err := e.NewVersion(baseVersion + ".0")
+	v, err := e.NewVersion(baseVersion)
 	if err != nil {
 		return nil, err
 	}
 
-	if operator == "==" {
-		// ==1.2.* means >=1.2.0, <1.3.0
-		if len(v.release) >= 2 {
-			lowerBound := fmt.Sprintf("%d.%d.0", v.release[0], v.release[1])
-			upperBound := fmt.Sprintf("%d.%d.0", v.release[0], v.release[1]+1)
-			return []*constraint{
-				{operator: ">=", version: lowerBound},
-				{operator: "<", version: upperBound},
-			}, nil
-		}
+	// ==1.2.* means >=1.2, <1.3 and ==1.* means >=1, <2: every version whose
+	// release starts with the given segments
+	lowerBound := baseVersion
+	upperBound := nextPrefixVersion(v.epoch, v.release)
 
-		// ==1.* means >=1.0.0, <2.0.0
-		if len(v.release) >= 1 {
-			lowerBound := fmt.Sprintf("%d.0.0", v.release[0])
-			upperBound := fmt.Sprintf("%d.0.0", v.release[0]+1)
-			return []*constraint{
-				{operator: ">=", version: lowerBound},
-				{operator: "<", version: upperBound},
-			}, nil
-		}
+	if operator == "==" {
+		return []*constraint{
+			{operator: ">=", version: lowerBound},
+			{operator: "<", version: upperBound},
+		}, nil
 	}
 
 	if operator == "!=" {
-		// !=1.2.* means <1.2.0 or >=1.3.0
-		if len(v.release) >= 2 {
-			lowerBound := fmt.Sprintf("%d.%d.0", v.release[0], v.release[1])
-			upperBound := fmt.Sprintf("%d.%d.0", v.release[0], v.release[1]+1)
-			return []*constraint{
-				{operator: "<", version: lowerBound},
-				{operator: ">=", version: upperBound},
-			}, nil
-		}
+		// !=1.2.* means <1.2 or >=1.3
+		return []*constraint{
+			{operator: "outside", version: lowerBound, upper: upperBound},
+		}, nil
 	}
 
 	return nil, fmt.Errorf("unsupported wildcard constraint: %s%s", operator, version)
@@ -177,6 +174,7 @@ func (pr *VersionRange) Contains(version *Version) bool {
 type constraint struct {
 	operator string
 	version  string
+	upper    string // exclusive upper bound of the excluded interval, for "outside"
 }
 
 // matches checks if the given version matches this constraint
@@ -193,6 +191,15 @@ func (c *constraint) matches(version *Version) bool {
 	}
 
 	comparison := version.Compare(constraintVersion)
+
+	// Handle exclusion of a prefix (!=1.2.*): below the prefix or at/after the next one
+	if c.operator == "outside" {
+		upperVersion, err := e.NewVersion(c.upper)
+		if err != nil {
+			return false
+		}
+		return comparison < 0 || version.Compare(upperVersion) >= 0
+	}
 
 	switch c.operator {
 	case "==":
